@@ -5,6 +5,7 @@
 -/
 import SymfcModel.Model.Inst
 import SymfcModel.Lemmas.Cell
+import Mathlib.Data.Matrix.Mul
 namespace Symfc.C08
 open Symfc Symfc.Cell
 
@@ -55,5 +56,23 @@ theorem element_decompr_keeps_cartesian (c : Cell) (n t : Nat) (ht : t < c.N ^ n
     (c.latTransDecompr n).getD t 0 = (c.atomicDecompr n).getD (t / 3 ^ n) 0 * 3 ^ n + t % 3 ^ n := by
   unfold latTransDecompr
   simp [Array.getD, ht]
+
+/-- C08, matrix level: `compression_matrix = C_trans · n_a` with `C_trans` the indicator of the decompression map `D`
+    (full element ↦ class) times a weight `w` (the code: `1/√n_lp`), and `compact_compression_matrix = w' · n_a` (the
+    code: the SAME `1/√n_lp`, extracted as `accessorFresh`). Every row of the full matrix is `w` times the row of `n_a`
+    at the element's class — so with `w = w'` the full tensor at element `e` IS the compact tensor at row `D e`, and by
+    `compact_block_m_is_full_restricted_to_p2s_m` the rows of the m-th compact block are the rows of the full tensor whose
+    first atom is `p2s_map[m]`. -/
+theorem full_row_is_the_scaled_row_of_its_class {K n k x : Type*} [Semiring K] [Fintype k] [DecidableEq k]
+    (D : n → k) (w : K) (M : Matrix k x K) (e : n) (c : x) :
+    ((Matrix.of (fun (i : n) (j : k) => if D i = j then w else 0)) * M) e c = w * M (D e) c := by
+  simp [Matrix.mul_apply, Matrix.of_apply, ite_mul, Finset.sum_ite_eq]
+
+/-- … hence full and compact outputs agree element by element for every coefficient vector. -/
+theorem full_output_is_the_compact_output_at_the_class {K n k x : Type*} [Semiring K] [Fintype k] [Fintype x]
+    [DecidableEq k] (D : n → k) (w : K) (NA : Matrix k x K) (coef : x → K) (e : n) :
+    (((Matrix.of (fun (i : n) (j : k) => if D i = j then w else 0)) * NA).mulVec coef) e =
+      ((w • NA).mulVec coef) (D e) := by
+  simp only [Matrix.mulVec, dotProduct, full_row_is_the_scaled_row_of_its_class, Matrix.smul_apply, smul_eq_mul]
 
 end Symfc.C08
